@@ -476,6 +476,23 @@ static int resp(unsigned long seedv, const char * tier, const char * outpath) {
         }
     }
 #endif
+#if USE_USER_ERROR_LIST
+    /* the user error list of this build: descriptions with a double quote, a semicolon, only quotes, sixty characters */
+    {
+        static const int ucodes[] = {310, 311, 312, -1310, 313};      /* 313 is not in the list */
+        for (c = 0; c < 5; c++) {
+            size_t dl = strlen(SCPI_ErrorTranslate((int16_t) ucodes[c]));
+            resp_case(f, ucodes[c], 0, "", 0); n++;
+            resp_case(f, ucodes[c], 1, "slot \"3\"", 8); n++;
+            for (len = 255 - dl - 12; len <= 255 - dl + 4; len++) {
+                memset(text, 'u', len);
+                resp_case(f, ucodes[c], 1, text, len); n++;
+                text[len - 2] = '"';
+                resp_case(f, ucodes[c], 1, text, len); n++;
+            }
+        }
+    }
+#endif
     /* every length around the boundary, quotes at every position relative to it */
     for (c = 0; c < (thorough ? 13 : 4); c++) {
         size_t dl = strlen(SCPI_ErrorTranslate((int16_t) codes[c]));
